@@ -354,9 +354,14 @@ def render_fn(fnitem, mode, contract, tparams=('T',), scalar='R', indent='    ')
         if re.search(r'\bmut\s+\w+\s*:', pre) or re.search(r'\(\s*mut\s+self\b', pre):
             pre, body = rewrite_mut_params(pre, body)
     for (a, b) in c.body_subst:
-        if a not in body:
-            raise LookupError('body_subst anchor lost: %r' % a)
-        body = body.replace(a, b)
+        if a in body:
+            body = body.replace(a, b)
+            continue
+        # the pretty printer may break the anchor across lines: match it modulo whitespace
+        rx = re.compile(r'\s*'.join(re.escape(tok) for tok in re.findall(r'\w+|[^\w\s]', a)))
+        if len(rx.findall(body)) != 1:
+            raise LookupError('anchor-lost: body_subst anchor %r' % a)
+        body = rx.sub(lambda _m: b, body, count=1)
     for (anchor, ghost) in c.inserts:
         if body.count(anchor) != 1:
             raise LookupError('anchor-lost: insert anchor %r occurs %d times' % (anchor, body.count(anchor)))
